@@ -85,7 +85,7 @@ _rename.invariants = {0: _rename.invariants[0][:2], 1: ['True']}
 _rename.ensures = _rename.ensures[:2]
 
 # the project-wide candidate scan behind get_references walks the project with FolderIO.walk (shared with C19)
-CONTRACTS = [_rename, _rename_files, _c07._calc_rename, _c16._flag] + _c19.WALK
+CONTRACTS = [_rename, _rename_files, _c07._calc_rename, _c16._flag, _c19._scan] + _c19.WALK
 
 
 def register(reg):
